@@ -9,7 +9,7 @@ TRUSTED_BASE = [
     "rustc/LLVM, core/std, and the crates regex, chrono, phf, strum, arrayvec, arraydeque: modelled and validated by correspondence, not verified",
 ]
 
-HOOK_COMMITS = ["89cac3b"]
+HOOK_COMMITS = ["89cac3b", "2698c5e"]
 
 # properties not (yet) claimed; every one has an executable logic core and is planned (DESIGN.md §9)
 NOT_APPLICABLE = {f"C{i:02d}": "not yet claimed in this revision: model/suite under construction (see DESIGN.md §9 staging); the technique does apply"
@@ -79,5 +79,19 @@ PROPS = {
         "exhaustive_note": "the property's finite quantifier (issue year 1970..2200 x every day of year x offset -90..+90; all TTTT; all HHMM) is enumerated completely on both sides in both tiers",
         "assumptions": ["Utc::now() is not involved (callers pass the receive time)"],
         "spec_ops": {"spec.c15.invalid": "issue"},
+    },
+    "C07": {
+        "thm": "SameVerif.Thm.C07",
+        "suites": ["framer", "framerseq"],
+        "technique": "Lean 4 theorems about the framer automaton (refinement of a declarative, index-based framing specification; bytes in order; one burst per start; give-up; length cap) + hash-exhaustive correspondence over a reduced alphabet with restarts/ends at every position + declarative oracle on long streams",
+        "level_text": "The framer model (Framer::input/end/state, message_prefix_errors) is proved in Lean, for all byte streams and budgets, to report bursts that are the matched window as received followed by the received bytes in order, ending as specified; "
+                      "it is tied to the real Framer through the hook exhaustively over all sequences of a 10-symbol alphabet (preamble, Z, C, N, '-', 'A', NUL, 0xFF, 1-bit-off Z and C) of depth 4 (quick) / 5 (thorough) after 9 structured starts, with a restart or end() inserted at every position, for 10 (quick) / all 72 (thorough) budget pairs, by hash incl. the final state snapshot; "
+                      "long random streams (up to 300 data bytes, over the cap) are replayed on model and code and judged by the declarative framing specification; random stateful op sequences compare the private state after every call.",
+        "level_note": "Bit-phase to byte alignment at the signal level is C01's link model + signal suite, not this check. Budgets above 7 for the prefix are outside the builder's clamp and not enumerated.",
+        "rule": "hash requests: (budget pair) x (structured start) x quarter of the tail space; each stands for 10^depth/4 tails x (2*depth+1) restart/end variants. fr.stream: preamble length 0..24, prefix with 0..4 bit errors or absent, data 0..300 bytes with 0..40% invalid, garbage tail. framerseq: random calls with restarts (p=1/25) and end() (p=1/40), state snapshot compared after every call. Non-trivial: hash ranges, streams, and every stateful call; distinct by request text.",
+        "exhaustive": False,
+        "exhaustive_note": "exhaustive within the stated reduced alphabet/depth/budget grid (counters.exhaustive:op_sequences); the property's depth-12 space is not reached",
+        "assumptions": ["the chain-level precondition 'four 0xAB training bytes follow every start' is C01/C10's link model, here streams with fewer preamble bytes are included and judged by the same specification"],
+        "spec_ops": {"spec.c07.stream": "fr.stream"},
     },
 }
